@@ -66,13 +66,16 @@ func main() {
 				env.Cfg.Proxy.RetryOnInvalidRange.Overwrite(retry)
 				bodies := map[string][]byte{}
 				etags := map[string]string{}
+				chunked := map[string]bool{}
 				env.Origin.SetHandler(func(req e2elib.OriginRequest, n int) e2elib.Answer {
 					p := req.Target
 					if i := strings.Index(p, "://"); i >= 0 { // absolute-form never reaches the origin, but be safe
 						p = p[strings.Index(p[i+3:], "/")+i+3:]
 					}
-					return e2elib.NewAnswer(200, bodies[p], "Cache-Control: max-age=3600", "ETag: "+etags[p],
+					a := e2elib.NewAnswer(200, bodies[p], "Cache-Control: max-age=3600", "ETag: "+etags[p],
 						"Last-Modified: "+lastMod.Format(http.TimeFormat), "Content-Type: application/octet-stream")
+					a.Chunked = chunked[p] // origin streams without a Content-Length: the stored header set has none either
+					return a
 				})
 				for k := 0; k < per; k++ {
 					caseNo++
@@ -81,6 +84,7 @@ func main() {
 					body := content(caseNo, size)
 					etag := fmt.Sprintf("\"e%d\"", caseNo)
 					bodies[path], etags[path] = body, etag
+					chunked[path] = r.Chance(35)
 					var spec string
 					hasRange := true
 					switch r.Intn(10) {
@@ -159,7 +163,7 @@ func main() {
 							}
 						default:
 							if resp.Status >= 200 && resp.Status < 300 {
-								obs = fmt.Sprintf("(OFull %d %s %s)", resp.Status, emit.Z(int64(len(resp.Body))), emit.Bytes(resp.Body))
+								obs = fmt.Sprintf("(OFull %d %s %s %s)", resp.Status, emit.Z(int64(len(resp.Body))), emit.Bytes(resp.Body), emit.Bool(cr != ""))
 							} else {
 								obs = fmt.Sprintf("(OOther %d)", resp.Status)
 							}
@@ -180,9 +184,10 @@ func main() {
 					meta.Count("retry", emit.Bool(retry))
 					meta.Count("if_range", strconv.Itoa(irKind))
 					meta.Count("size", strconv.Itoa(size))
+					meta.Count("origin_chunked", emit.Bool(chunked[path]))
 					nontriv := hasRange && strings.ContainsAny(spec[strings.IndexByte(spec, '=')+1:], "0123456789-")
 					meta.Record(fmt.Sprintf("%s|%d|%d|%v|%s|%s", spec, size, irKind, retry, backend, transport), nontriv,
-						map[string]any{"range": spec, "has_range": hasRange, "size": size, "if_range_kind": irKind, "retry": retry, "backend": backend, "transport": transport, "observed": obsShort(obs)})
+						map[string]any{"range": spec, "has_range": hasRange, "size": size, "if_range_kind": irKind, "retry": retry, "backend": backend, "transport": transport, "origin_chunked": chunked[path], "observed": obsShort(obs)})
 				}
 				env.Close()
 				os.RemoveAll(dir)
